@@ -8,7 +8,9 @@ from .. import core
 from ..core import SKIP
 
 ID = "C09"
-RULE = ("(v4: + constructor->to_array for float64/32/16,int64,bool, to_bedgraph, t[intervals]/t[locations], from_dict/from_stream, "
+RULE = ("(v5: + arrays must not follow later in-place edits of their input tables nor of the arrays/records they handed out "
+        "(gap-free genome-wide bedGraphs included), two genomes alive at once, query sequences on one GenomicIntervals object "
+        "(merged/sorted/clip/... then pileup and mask again), every input table byte-compared after the call; v4: + constructor->to_array for float64/32/16,int64,bool, to_bedgraph, t[intervals]/t[locations], from_dict/from_stream, "
         "read_track from files (memory and streamed), Genome construction variants; v3: genomes with ignored '_' contigs of non-zero size; v2: pileup leaves, t[mask], float trees on the Lean model) exhaustive: every sorted non-overlapping bedGraph of <= 3 records on a contig of size 1..S (quick S<=5, thorough S<=7; "
         "with/without gaps, starting at 0 or later, ending at or before the size, empty), sizes given and None, int and float "
         "values, through GenomicRunLengthArray.from_bedgraph, from_intervals(values=array), Genome.get_track and "
@@ -242,6 +244,40 @@ def cases(tier, rng):
                 recs = [[c, a, b, v] for c, iv in enumerate(combo) for (a, b), v in zip(iv, _values(rng, kind, len(iv)))]
                 yield {"op": "track", "sizes": list(sizes), "recs": recs, "kind": kind}
                 yield {"op": "geo_track", "sizes": list(sizes), "recs": recs, "kind": kind}
+    # 2b. the array is a value of its own: edit the input table / the handed-out results afterwards (history of calls)
+    def tilings(sizes):       # bedGraphs without any gap over the whole genome
+        recs = []
+        for cidx, sz in enumerate(sizes):
+            cuts = sorted(rng.sample(range(1, sz), min(sz - 1, rng.randrange(0, 3)))) if sz > 1 else []
+            pts = [0] + cuts + [sz]
+            recs += [[cidx, a, b] for a, b in zip(pts, pts[1:])]
+        return recs
+    for _ in range(400 if big else 80):
+        sizes = [rng.choice([1, 2, 4, 7]) for _ in range(rng.choice([1, 2, 3]))]
+        kind = rng.choice(["int", "float"])
+        shape = rng.choice(["tiled", "tiled", "gappy"])
+        if shape == "tiled":
+            recs = [r + [v] for r, v in zip(tilings(sizes), _values(rng, kind, 50))]
+        else:
+            recs = _rand_track(rng, sizes, kind)
+        for entry in ("genome", "geometry", "array"):
+            yield {"op": "alias", "sizes": sizes, "recs": recs, "kind": kind, "entry": entry}
+        ivs = _rand_ivs(rng, sizes)
+        yield {"op": "alias", "sizes": sizes, "recs": ivs, "kind": "int", "entry": rng.choice(["mask", "pileup"])}
+    # 2c. queries on one GenomicIntervals object in a row (nested / duplicated intervals included)
+    for _ in range(600 if big else 120):
+        sizes = [rng.choice([3, 6, 12]) for _ in range(rng.choice([1, 2, 3]))]
+        ivs = []
+        for cidx, sz in enumerate(sizes):
+            for _k in range(rng.randrange(4)):
+                a = rng.randrange(sz)
+                b = rng.randrange(a + 1, sz + 1)
+                ivs.append([cidx, a, b, 1])
+                if rng.random() < 0.5 and b - a >= 2:          # an interval nested in the previous one
+                    a2 = rng.randrange(a, b - 1)
+                    ivs.append([cidx, a2, rng.randrange(a2 + 1, b), 1])
+        ivs.sort(key=lambda r: (r[0], r[1]))          # merged() asserts the intervals are sorted by start
+        yield {"op": "gi_seq", "sizes": sizes, "recs": ivs, "steps": [rng.choice(QUERIES) for _ in range(rng.choice([2, 3, 5]))]}
     for _ in range(40 if big else 8):      # more than ten chromosomes: str() shows the first ten
         sizes = [rng.choice([1, 2, 3]) for _ in range(rng.choice([11, 12, 14]))]
         yield {"op": "track_str", "sizes": sizes, "recs": _rand_track(rng, sizes, "int", maxn=1)}
@@ -322,6 +358,10 @@ def nontrivial(c):
         r = c["recs"]
         return bool(r) and (r[0][0] > 0 or (c["size"] is not None and r[-1][1] < c["size"])
                             or any(r[i][1] != r[i + 1][0] for i in range(len(r) - 1)))
+    if op == "alias":
+        return len(c["recs"]) >= 1
+    if op == "gi_seq":
+        return len(c["recs"]) >= 2 and any(q.startswith("merged") for q in c["steps"])
     if op == "rle_to_array":
         return len(c["values"]) >= 1
     if op == "extract":
@@ -333,7 +373,34 @@ def nontrivial(c):
 
 # ------------------------------------------------------------------ implementation
 
+_SNAP = []
+
+
+def _snap(x):
+    """remember an input table and a byte copy of its numeric columns (compared after the call)"""
+    cols = {}
+    for name in ("start", "stop", "value"):
+        if hasattr(x, name):
+            cols[name] = np.array(getattr(x, name), copy=True)
+    _SNAP.append((x, cols))
+    return x
+
+
+def _mutated():
+    out = []
+    for x, cols in _SNAP:
+        for name, before in cols.items():
+            a = np.asarray(getattr(x, name))
+            if a.shape != before.shape or a.dtype != before.dtype or a.tobytes() != before.tobytes():
+                out.append(name)
+    return sorted(set(out))
+
+
 def _bg(recs, kind, names=None):
+    return _snap(_bg0(recs, kind, names))
+
+
+def _bg0(recs, kind, names=None):
     m = _mods()
     ch = [("chr%d" % (r[0] + 1)) for r in recs] if names is None else [names] * len(recs)
     o = 1 if names is None else 0
@@ -419,16 +486,148 @@ def _leaf_impl(genome, sizes, leaf):
     m = _mods()
     if leaf["kind"] in ("mask", "pileup"):
         r = leaf["recs"]
-        iv = m["Interval"](["chr%d" % (x[0] + 1) for x in r], np.array([x[1] for x in r], dtype=int), np.array([x[2] for x in r], dtype=int))
+        iv = _ivtab(r)
         gi = genome.get_intervals(iv)
         return gi.get_mask() if leaf["kind"] == "mask" else gi.get_pileup()
     return genome.get_track(_bg(leaf["recs"], leaf["kind"]))
 
 
 def impl(c):
+    """the observation of the real calls; if a call changed one of the tables handed to it (start / stop / value columns
+    compared byte for byte with a copy taken before) that is reported as well"""
+    del _SNAP[:]
+    out = _impl_raw(c)
+    mut = _mutated() if c["op"] not in ("alias",) else []
+    del _SNAP[:]
+    if mut and isinstance(out, dict):
+        return dict(out, mutated_arguments=mut)
+    return out
+
+
+def _ivtab(rows):
+    m = _mods()
+    return _snap(m["Interval"](["chr%d" % (x[0] + 1) for x in rows], np.array([x[1] for x in rows], dtype=int),
+                               np.array([x[2] for x in rows], dtype=int)))
+
+
+def _obs_arr(t, sizes):
+    names = ["chr%d" % (i + 1) for i in range(len(sizes))]
+    d = t.to_dict()
+    out = {"dict": [_out(None, d[n]) for n in names], "sum": _out(None, np.asarray([np.sum(t)]))[0]}
+    data = t.get_data()
+    ch = [names.index(x) for x in data.chromosome.tolist()] if len(data) else []
+    if hasattr(data, "value"):
+        out["data"] = [[k, int(a), int(b), v] for k, a, b, v in zip(ch, data.start.tolist(), data.stop.tolist(), _out(None, data.value))]
+    else:
+        out["data"] = [[k, int(a), int(b)] for k, a, b in zip(ch, data.start.tolist(), data.stop.tolist())]
+    return out, d, data
+
+
+def _impl_alias(c):
+    """build an array, look at it, let the caller edit the table it was built from (in place), look again; then
+    scribble over the arrays / records the array handed out and look a third time. A second genome with other sizes
+    is created and used in between."""
+    m = _mods()
+    sizes, kind, entry = c["sizes"], c["kind"], c["entry"]
+    genome = m["bnp"].Genome.from_dict(_sizes_dict(sizes))
+    if entry in ("mask", "pileup"):
+        tab = _ivtab(c["recs"])
+        gi = genome.get_intervals(tab)
+        t = gi.get_mask() if entry == "mask" else gi.get_pileup()
+    else:
+        tab = _bg0(c["recs"], kind)
+        if entry == "genome":
+            t = genome.get_track(tab)
+        elif entry == "geometry":
+            t = m["Geometry"](_sizes_dict(sizes)).get_track(tab)
+        else:
+            from bionumpy.genomic_data.genomic_track import GenomicArray
+            t = GenomicArray.from_bedgraph(tab, genome.get_genome_context())
+    first, d, data = _obs_arr(t, sizes)
+    derived = t if entry == "mask" else t * 2
+    # another genome of the same kind, other sizes, alive at the same time
+    other = m["bnp"].Genome.from_dict({"chr1": 3, "chr2": 2, "chrX": 7})
+    other_t = other.get_track(_bg0([[0, 0, 3, 4], [1, 0, 1, 9]], "int"))
+    # the caller goes on working with HIS table
+    if hasattr(tab, "value"):
+        tab.value *= 10
+        if len(tab):
+            tab.value[0] = 77
+    if len(tab):
+        tab.stop[:] = tab.stop + 1
+        tab.start[:] = 0
+    second, d2, data2 = _obs_arr(t, sizes)
+    # ... and with what the array handed out
+    for arr in list(d.values()) + list(d2.values()):
+        if arr.size:
+            arr[...] = 1 if arr.dtype == bool else 99
+    for tb in (data, data2):
+        if len(tb):
+            tb.start[:] = 0
+            if hasattr(tb, "value"):
+                tb.value[:] = 55
+    third, _, _ = _obs_arr(t, sizes)
+    der, _, _ = _obs_arr(derived, sizes)
+    oth = [[int(v) for v in other_t.to_dict()[n].tolist()] for n in ("chr1", "chr2", "chrX")]
+    return {"first": first, "after_input_edit": second, "after_output_edit": third, "derived": der["dict"], "other": oth}
+
+
+QUERIES = ["pileup", "mask", "merged0", "merged2", "sorted", "clip", "data", "len", "center"]
+
+
+def _codes(ch, names):
+    if hasattr(ch, "raw") and not isinstance(ch.raw(), str) and getattr(getattr(ch, "encoding", None), "__class__", type(None)).__name__ == "StringEncoding":
+        return [int(v) for v in np.asarray(ch.raw()).ravel().tolist()]
+    return [names.index(n) for n in ch.tolist()]
+
+
+def _impl_gi_seq(c):
+    """read-only looking queries on ONE GenomicIntervals object, in a row; after every step the pileup and the mask of
+    that same object are taken again"""
+    m = _mods()
+    sizes = c["sizes"]
+    names = ["chr%d" % (i + 1) for i in range(len(sizes))]
+    genome = m["bnp"].Genome.from_dict(_sizes_dict(sizes))
+    tab = _ivtab(c["recs"])
+    gi = genome.get_intervals(tab)
+    steps = []
+    for q in c["steps"]:
+        res = None
+        if q == "pileup":
+            gi.get_pileup()
+        elif q == "mask":
+            gi.get_mask()
+        elif q in ("merged0", "merged2"):
+            r = gi.merged(distance=int(q[-1]))
+            res = [[k, int(a), int(b)] for k, a, b in zip(_codes(r.chromosome, names), r.start.tolist(), r.stop.tolist())]
+        elif q == "sorted":
+            r = gi.sorted()
+            res = [[k, int(a)] for k, a in zip(_codes(r.chromosome, names), r.start.tolist())]
+        elif q == "clip":
+            r = gi.clip()
+            res = [[int(a), int(b)] for a, b in zip(r.start.tolist(), r.stop.tolist())]
+        elif q == "data":
+            r = gi.get_data()
+            res = [[int(a), int(b)] for a, b in zip(r.start.tolist(), r.stop.tolist())]
+        elif q == "len":
+            res = len(gi)
+        elif q == "center":
+            r = gi.get_location("center")
+            res = [int(a) for a in r.position.tolist()]
+        p, k = gi.get_pileup().to_dict(), gi.get_mask().to_dict()
+        steps.append({"q": q, "res": res, "pileup": [[int(v) for v in p[n].tolist()] for n in names],
+                      "mask": [[int(v) for v in k[n].tolist()] for n in names]})
+    return {"steps": steps}
+
+
+def _impl_raw(c):
     m = _mods()
     op = c["op"]
     try:
+        if op == "alias":
+            return _impl_alias(c)
+        if op == "gi_seq":
+            return _impl_gi_seq(c)
         if op == "rle_bedgraph":
             r = m["G"].from_bedgraph(_bg(c["recs"], c["kind"], names="c"), c["size"])
             return _rle_obs(r, c["kind"])
@@ -592,6 +791,50 @@ def oracle(c):
         if any(not _ok_bedgraph(rs, sz) for rs, sz in zip(per, sizes)) or [r[0] for r in c["recs"]] != sorted(r[0] for r in c["recs"]):
             return SKIP
         return {"dict": [_out(c["kind"], _dense(rs, c["kind"], sz)) for rs, sz in zip(per, sizes)]}
+    if op == "alias":
+        sizes = c["sizes"]
+        if c["entry"] in ("mask", "pileup"):
+            g = _genome_dense(sizes, {"kind": c["entry"], "recs": c["recs"]})
+        else:
+            per = _split(sizes, c["recs"])
+            if any(not _ok_bedgraph(rs, sz) for rs, sz in zip(per, sizes)) or [r[0] for r in c["recs"]] != sorted(r[0] for r in c["recs"]):
+                return SKIP
+            g = np.concatenate([_dense(rs, c["kind"], sz) for rs, sz in zip(per, sizes)])
+        offs = np.insert(np.cumsum(sizes), 0, 0)
+        cut = lambda a: [_out(None, a[offs[i]:offs[i + 1]]) for i in range(len(sizes))]
+        one = {"dict": cut(g), "sum": _out(None, np.asarray([np.sum(g)]))[0]}
+        return {"obs": one, "derived": cut(g if c["entry"] == "mask" else g * 2), "other": [[4, 4, 4], [9, 0], [0] * 7],
+                "bool": c["entry"] == "mask"}
+    if op == "gi_seq":
+        sizes = c["sizes"]
+        per = [[(r[1], r[2]) for r in c["recs"] if r[0] == i] for i in range(len(sizes))]
+        pile = [[sum(1 for a, b in I if a <= p < b) for p in range(sz)] for I, sz in zip(per, sizes)]
+        mask = [[int(v > 0) for v in row] for row in pile]
+
+        def runs(bits, d):
+            out = []
+            for p, v in enumerate(bits):
+                if v:
+                    if out and p <= out[-1][1] + d:
+                        out[-1][1] = p + 1
+                    else:
+                        out.append([p, p + 1])
+            return out
+        steps = []
+        for q in c["steps"]:
+            res = None
+            if q in ("merged0", "merged2"):
+                res = [[i, a, b] for i, row in enumerate(mask) for a, b in runs(row, int(q[-1]))]
+            elif q == "sorted":
+                res = sorted([r[0], r[1]] for r in c["recs"])
+            elif q in ("clip", "data"):
+                res = [[r[1], r[2]] for r in c["recs"]]
+            elif q == "len":
+                res = len(c["recs"])
+            elif q == "center":
+                res = [(r[1] + r[2]) // 2 for r in c["recs"]]
+            steps.append({"q": q, "res": res, "pileup": pile, "mask": mask})
+        return {"steps": steps}
     if op == "rle_to_array":
         ev, vals = c["events"], c["values"]
         if len(ev) != len(vals) + 1 or ev[0] != 0 or any(a >= b for a, b in zip(ev, ev[1:])):
@@ -666,9 +909,20 @@ def _records_ok(data, dict_, is_bool):
 
 
 def agree(c, got, exp):
-    if not isinstance(got, dict) or "err" in got:
+    if not isinstance(got, dict) or "err" in got or "mutated_arguments" in got:
         return False
     op = c["op"]
+    if op == "alias":
+        for k in ("first", "after_input_edit", "after_output_edit"):
+            o = got[k]
+            if o["dict"] != exp["obs"]["dict"] or not _records_ok(o["data"], o["dict"], exp["bool"]):
+                return False
+            a, b = o["sum"], exp["obs"]["sum"]
+            if a != b and not (c["kind"] == "float" and abs(_b2f(a) - _b2f(b)) <= 1e-9 * max(1.0, abs(_b2f(b)))):
+                return False
+        return got["derived"] == exp["derived"] and got["other"] == exp["other"]
+    if op == "gi_seq":
+        return core.canon(got) == core.canon(exp)
     if op in ("rle_bedgraph", "from_intervals_arr"):
         return got["dense"] == exp["dense"]
     if op == "track_str":
@@ -720,6 +974,20 @@ def agree_model(c, got, m):
 
 def finding_key(c, got, exp):
     op = c["op"]
+    if isinstance(got, dict) and "mutated_arguments" in got:
+        return f"{op}:modifies-its-argument-{'-'.join(got['mutated_arguments'])}"
+    if op == "alias" and isinstance(got, dict) and "first" in got:
+        if got["first"]["dict"] == exp["obs"]["dict"] and got["after_input_edit"]["dict"] != exp["obs"]["dict"]:
+            return "alias:array-follows-later-edits-of-its-input"
+        if got["after_input_edit"]["dict"] == exp["obs"]["dict"] and got["after_output_edit"]["dict"] != exp["obs"]["dict"]:
+            return "alias:array-follows-edits-of-what-it-handed-out"
+        return "alias:differs-from-dense-numpy"
+    if op == "gi_seq" and isinstance(got, dict) and "steps" in got:
+        for k, (a, b) in enumerate(zip(got["steps"], exp["steps"])):
+            if a != b:
+                prev = [x["q"] for x in got["steps"][:k + 1]]
+                return "gi_seq:wrong-" + ("result" if a["res"] != b["res"] else "pileup-or-mask") + "-after-" + prev[-1]
+        return "gi_seq:differs"
     if isinstance(got, dict) and "err" in got:
         return f"{op}:raises-{got['err'].split(':')[-1]}"
     if op in ("track", "geo_track") and isinstance(got, dict) and got.get("dict") != exp.get("dict"):
